@@ -493,3 +493,40 @@ def the_single_component_query_returns_the_one_match(n: int, p2: int, p3: int, e
             assert got is None
         else:
             assert same(got, nodes[exp[0]]), "the one matching leaf component"
+
+
+class MatStub:
+    """stand-in for a material: only its name is read by the query under contract"""
+
+    def getName(self):
+        return self.nm
+
+
+@lemma(gen={"n": (1, 4), "p2": (0, 1), "p3": (0, 2)})
+def components_of_a_material_are_the_leaves_holding_it(n: int, p2: int, p3: int, c1: bool, c2: bool, c3: bool, u1: bool, u2: bool, u3: bool, byName: bool):
+    """getComponentsOfMaterial, by material object or by name (byName): the leaf components whose material has that
+    name, in walk order; shapes <= 4 nodes, each leaf a real Component (c_i) of material "UO2" (u_i) or "HT9"."""
+    n = choose(n, 1, 4)
+    p2 = choose(p2, 0, 1)
+    p3 = choose(p3, 0, 2)
+    par = [0, 0, p2, p3]
+    isComp = [False, c1, c2, c3]
+    isU = [False, u1, u2, u3]
+    nodes = []
+    for i in range(n):
+        leaf = len(kids(n, par, i)) == 0 and i > 0
+        if leaf and isComp[i]:
+            nodes.append(new(Component, name="n%d" % i, parent=None, _children=[], p=new(PStub, type="t"), material=new(MatStub, nm="UO2" if isU[i] else "HT9")))
+        else:
+            nodes.append(new(Composite, name="n%d" % i, parent=None, _children=[], p=new(PStub, type="t")))
+    for i in range(1, n):
+        nodes[par[i]]._children.append(nodes[i])
+        nodes[i].parent = nodes[par[i]]
+    pre = preorder(n, par, 0)
+    exp = [nodes[j] for j in pre if j > 0 and len(kids(n, par, j)) == 0 and isComp[j] and isU[j]]
+    if byName:
+        got = nodes[0].getComponentsOfMaterial(materialName="UO2")
+    else:
+        got = nodes[0].getComponentsOfMaterial(new(MatStub, nm="UO2"))
+    assert same_seq(got, exp), "exactly the leaf components of that material, in walk order"
+    assert same_seq(nodes[0].getComponentsOfMaterial(materialName="Sodium"), [])
